@@ -274,6 +274,31 @@ theorem tilt_list_equiv_complex (amp : Int → Int → ℂ) (opd0 : Int → Int 
   exact tilt_representations_equiv_complex amp opd0 _ _ dx0 dx1 du0 du1 wl z os s0 s1 o0 o1 hw hz hos hdu fix0 fix1 sub0 sub1
     (hsplit.trans hs) oe oe' P0 P1 P0' P1' hoe hP hoe' hP' r c hin hin'
 
+
+/-- **Segmented apertures with per-segment tilts.** For a wavefront whose fields (one per segment) each carry their own tilt as
+metadata — what `fit_tilt` on a segmented plane produces — the sum over the segments of the propagated fields equals, at every
+global output coordinate lying in every segment's window and in the window of the metadata-free propagation, the sum over the
+segments of the propagated fields of the same plane with each segment's tilt written into its OPD as the ramp
+`thx_k·X·dx0 - thy_k·Y·dx1` (the un-fitted plane): `Wavefront.field` agrees sample for sample on the common window. -/
+theorem segmented_tilt_equiv_complex (segs : List (SegTilt ℂ ℝ)) (dx0 dx1 du0 du1 wl z : ℝ) (os : Int)
+    (hw : wl ≠ 0) (hz : z ≠ 0) (hos : os ≠ 0) (hdu : du0 ≠ 0 ∧ du1 ≠ 0)
+    (hsplit : ∀ s ∈ segs, ((s.fix0 : ℝ) + s.sub0, (s.fix1 : ℝ) + s.sub1) = fieldShift [TiltEl.angular s.thx s.thy] z wl du0 du1 os true)
+    (oe oe' : Extent) (P0 P1 P0' P1' : Int)
+    (hoe : oe.rmin ≤ oe.rmax ∧ oe.cmin ≤ oe.cmax) (hP : 0 < P0 ∧ 0 < P1)
+    (hoe' : oe'.rmin ≤ oe'.rmax ∧ oe'.cmin ≤ oe'.cmax) (hP' : 0 < P0' ∧ 0 < P1') (r c : Int)
+    (hin : ∀ s ∈ segs, (oe.inb r c && (propExtent P0 P1 s.fix0 s.fix1).inb r c) = true)
+    (hin' : (oe'.inb r c && (propExtent P0' P1' 0 0).inb r c) = true) :
+    (segs.map fun s => embO (propagateField ⟨phasorField s.amp s.opd0 wl s.s0 s.s1 s.o0 s.o1, s.fix0, s.fix1, s.sub0, s.sub1⟩
+        (dftAlpha dx0 dx1 du0 du1 wl z os).1 (dftAlpha dx0 dx1 du0 du1 wl z os).2 oe P0 P1) r c).sum =
+    (segs.map fun s => embO (propagateField ⟨phasorField s.amp (fun x y => s.opd0 x y + (s.thx * RealLike.ofInt (cc s.s0 x + s.o0) * dx0
+          - s.thy * RealLike.ofInt (cc s.s1 y + s.o1) * dx1)) wl s.s0 s.s1 s.o0 s.o1, 0, 0, 0, 0⟩
+        (dftAlpha dx0 dx1 du0 du1 wl z os).1 (dftAlpha dx0 dx1 du0 du1 wl z os).2 oe' P0' P1') r c).sum := by
+  congr 1
+  apply List.map_congr_left
+  intro s hs
+  exact tilt_representations_equiv_complex s.amp s.opd0 s.thx s.thy dx0 dx1 du0 du1 wl z os s.s0 s.s1 s.o0 s.o1 hw hz hos hdu
+    s.fix0 s.fix1 s.sub0 s.sub1 (hsplit s hs) oe oe' P0 P1 P0' P1' hoe hP hoe' hP' r c (hin s hs) hin'
+
 /-- **The field in these theorems is the plane model's.** `phasorField` is exactly the phasor `Plane.multiply` builds for one
 segment in the plane model of C03/C07 (`segPhasor` with `planePh`: `amplitude[s]·mask[s]·exp(2πi·opd[s]/λ)` at
 `slice_offset(s, shape)`), and the global coordinate of slice-local index `i` used by the ramp is the plane's own mesh
